@@ -267,6 +267,9 @@ void Session::monitor_tx_hook(int hook, htp_tx_t *tx, TxM &m) {
     }
     m.resprog = tx->response_progress; m.seen100 = tx->seen_100continue;
     int ph;
+    // start, line and headers are delivered once per message (the status line and what follows it once more after each interim 100 response)
+    { int oi = hook == H_REQ_START ? 0 : hook == H_REQ_LINE ? 1 : hook == H_REQ_HEADERS ? 2 : hook == H_RES_START ? 3 : hook == H_RES_LINE ? 4 : hook == H_RES_HEADERS ? 5 : -1;
+      if (oi >= 0) { bool restart = (oi >= 3) && m.last_status == 100; if (m.once[oi] && !restart) viol("C05:callback_delivered_twice:" + site); m.once[oi]++; } }
     if ((ph = req_phase(hook)) != 0) {
         if (ph < m.reqph) viol("C05:request_callback_order:" + std::string(hook_name(hook)) + "_after_phase" + std::to_string(m.reqph) + "@" + htp_connp_in_state_as_string(connp_) + tsuffix(m, (hook == H_REQ_BODY || hook == H_TXREQ_BODY) ? ((1u << 5) | (1u << 9)) : (1u << 5)));
         if (ph > m.reqph) m.reqph = ph;
@@ -285,6 +288,14 @@ int Session::on_tx_hook(int hook, htp_tx_t *tx) {
     int serial = serial_of(tx);
     TxM &m = mon_[serial];
     monitor_tx_hook(hook, tx, m);
+    // C06, accounting for every input: the message length counts body bytes TAKEN FROM THE WIRE, so it cannot exceed the distance the parser has advanced since the
+    // end of the header block (since the start of the message when body data was delivered before the headers: the line-as-body tolerance)
+    if (hook == H_REQ_START) m.req_start = pos(0); else if (hook == H_RES_START) m.res_start = pos(1);
+    else if (hook == H_REQ_HEADERS) m.req_mark = m.reqbody > 0 ? m.req_start : pos(0); else if (hook == H_RES_HEADERS) m.res_mark = m.resbody > 0 ? m.res_start : pos(1);
+    if (o_.monitors && o_.wire_bound && hook == H_REQ_COMPLETE && m.req_mark >= 0 && !sticky_[0] && connp_->in_status != HTP_STREAM_ERROR && tx->request_message_len > pos(0) - m.req_mark)
+        viol(std::string("C06:request_message_len_exceeds_wire_bytes@") + htp_connp_in_state_as_string(connp_));
+    if (o_.monitors && o_.wire_bound && hook == H_RES_COMPLETE && m.res_mark >= 0 && !sticky_[1] && connp_->out_status != HTP_STREAM_ERROR && tx->response_message_len > pos(1) - m.res_mark)
+        viol(std::string("C06:response_message_len_exceeds_wire_bytes@") + htp_connp_out_state_as_string(connp_));
     if (hook == H_REQ_COMPLETE) {
         if (m.req_complete) viol(std::string("C05:request_complete_twice@") + htp_connp_in_state_as_string(connp_));
         m.req_complete++;
@@ -414,6 +425,7 @@ const Call &Session::data_call(char kind, const char *d, size_t n, bool gap) {
     // invalidate the library's view of the freed chunk for the *pointer* only; offsets are left alone (they are what
     // htp_connp_re[qs]_data_consumed reports). Nothing to do: the library must not touch it again anyway.
     end_call(c, rc, consumed);
+    base_[dir] += (long long)((rc == HTP_STREAM_DATA_OTHER || rc == HTP_STREAM_TUNNEL) ? consumed : n); // what was not consumed is offered again
     if (o_.monitors) {
         const char *D = dir ? "response" : "request";
         const char *st = dir ? c.out_state : c.in_state;
